@@ -1,0 +1,21 @@
+//go:build verif
+
+package jschema
+
+import "github.com/jsightapi/jsight-schema-go-library/notations/jschema/internal/scanner"
+
+// VerifSchemaKey returns a canonical key of the whole control state of the
+// internal schema scanner after it has read data byte by byte as Next does
+// (without the end-of-input rule): step function, return-step stack, lexeme
+// stack (event types), context and context stack, annotation mode and all
+// flags; or the outcome "ERR code index" / "CRASH" / "STOP LEN n" (end-top
+// delivered in length mode). Verification hook, build tag verif.
+func VerifSchemaKey(data []byte, lengthMode bool) string {
+	return scanner.VerifKey(data, lengthMode)
+}
+
+// VerifSchemaProbe is VerifSchemaKey preceded by the events delivered since the
+// scanner began to read the byte at position from: "<events>|<key or outcome>".
+func VerifSchemaProbe(data []byte, from int, lengthMode bool) string {
+	return scanner.VerifProbe(data, from, lengthMode)
+}
